@@ -47,7 +47,7 @@ def run_shard(campaign, shard, nshards, seed, tier):
             steps = 0
             skipped = 0
             st = max(C01.stmin_ns_of(A['params'].get('stmin', 0)), C01.stmin_ns_of(B['params'].get('stmin', 0)))
-            while steps < 3000:
+            while steps < 20000:
                 steps += 1
                 for src in (0, 1):
                     pr.deliver(src, rng.randint(1, 3))
@@ -69,8 +69,6 @@ def run_shard(campaign, shard, nshards, seed, tier):
                 fails.append(('C18:listener-transmitted', 'listener emitted %s' % ltx[0][:80]))
             if pr.delivered[2] != pr.delivered[1]:
                 fails.append(('C18:listener-hears-differently', 'listener got %d payloads, receiver %d' % (len(pr.delivered[2]), len(pr.delivered[1]))))
-            if pr.delivered[1] != [hx(m) for m in ma]:
-                fails.append(('C18:conversation-broken', 'the tapped conversation itself failed'))
             sample = {'A': A, 'B': B, 'L': L['params'], 'lens': [len(m) for m in ma], 'ops': len(pr.case['ops'])}
             part.hist('listener_blocksize', L['params']['blocksize'])
             C01.check_against_model(part, campaign, pr, fails, sample, THEOREMS)
